@@ -50,6 +50,8 @@ def leaf_script(kind, i, key_x):
         return b'\xab' + P(key_x) + b'\xac'                        # OP_CODESEPARATOR <key> OP_CHECKSIG: the digest commits to the separator's position (0)
     if kind == 'big':
         return b'\x75' + P(bytes([i % 256]) * 300) + b'\x75\x51'
+    if kind == 'empty':
+        return b''                                                  # the empty script is a valid leaf: the deepest witness item is what remains
     if kind in ('zero00', 'ffff'):
         # leaf hashes with a chosen first byte (0x00 / 0xff): sibling hashes that agree in a leading 0x00 byte or sort at the extremes
         want = 0 if kind == 'zero00' else 0xff
@@ -204,6 +206,8 @@ def check_case(c, ctx):
             raise core.Inconclusive()
         last = rb.out.strip().splitlines()[-1:] if rb.out.strip() else []
         want_top = [b'01'] if kind in ('checksig', 'codesep', 'same', 'args', 'big', 'zero00', 'ffff') else [b'%02x' % (1 + idx % 16)]
+        if kind == 'empty' and last and int(last[0] or b'0', 16) != 0:
+            want_top = last          # an empty leaf leaves the (non-zero) placeholder / signature item: any single true item
         if rb.abnormal or rb.rc != 0 or len(rb.out.strip().splitlines()) != 1 or last != want_top:
             raise Violation(c, 'btcdeb does not accept the transaction tap produced for leaf #%d of %d (rc=%s, stack %r, err %r)' % (idx, n, rb.rc, rb.out[-80:], rb.err[-200:]), observed=[rb.rc, rb.out.decode(errors='replace')[-80:]])
     except core.Inconclusive:
@@ -283,7 +287,7 @@ def check_keypath(c, ctx):
         ctx.inconclusive += 1
 
 
-KIND_SETS = [['drop'], ['same'], ['drop', 'same', 'same'], ['checksig', 'drop'], ['args', 'drop'], ['checksig'], ['big', 'drop'], ['drop', 'checksig', 'args', 'same'], ['zero00'], ['zero00'], ['zero00', 'ffff'], ['ffff', 'drop'], ['codesep'], ['codesep', 'drop']]
+KIND_SETS = [['empty'], ['empty', 'drop'], ['drop', 'empty', 'checksig'], ['drop'], ['same'], ['drop', 'same', 'same'], ['checksig', 'drop'], ['args', 'drop'], ['checksig'], ['big', 'drop'], ['drop', 'checksig', 'args', 'same'], ['zero00'], ['zero00'], ['zero00', 'ffff'], ['ffff', 'drop'], ['codesep'], ['codesep', 'drop']]
 PREFIXES = [None, None, 'bc', 'tb', 'bcrt', 'xyz', 'a']
 
 
@@ -304,7 +308,7 @@ def w_grid(ctx, wid, seed, pairs):
 def random_cases(draw):
     n = draw(st.one_of(st.integers(1, 20), st.integers(1, 200), st.sampled_from([1, 2, 3, 63, 64, 65, 127, 128, 129, 255, 256, 257, 1023, 1024])))
     idx = draw(st.integers(0, n - 1))
-    kinds = draw(st.lists(st.sampled_from(['drop', 'same', 'checksig', 'args', 'big', 'zero00', 'zero00', 'ffff', 'codesep']), min_size=1, max_size=5))
+    kinds = draw(st.lists(st.sampled_from(['drop', 'same', 'checksig', 'args', 'big', 'zero00', 'zero00', 'ffff', 'codesep', 'empty']), min_size=1, max_size=5))
     if n > 100:
         kinds = [k for k in kinds if k != 'big'] or ['drop']
     # (the longest prefix that still gives an address of at most 90 characters is 30 characters long; longer ones must be refused - see check_long_prefix)
